@@ -248,7 +248,39 @@ pub fn run_c13(tier: &str) -> i32 {
                 }
             }
         }
-        rep.sub("range-protocol", "the iterators of RankRange / SuitRange new and inclusive for all endpoint pairs: all front/back pull sequences of length <= 4 then drained either way, rev(), nth/nth_back for every k, count(), last(), len()/size_hint() before every pull agree with plain forward iteration", np, np, true, json!({}));
+        // the order-based consumers (max, min, by_ref().max(), rev().min(), max_by_key, is position order): a range
+        // enumerates the run between its endpoints in the order that comparison follows
+        for a in 0..13usize {
+            for b in a..13usize {
+                let (ra, rb) = (RANKS[a], RANKS[b]);
+                np += 1;
+                let r = catch(move || {
+                    let mk = || RankRange::inclusive(ra, rb).into_iter();
+                    let base: Vec<Rank> = mk().collect();
+                    let mut problems: Vec<String> = vec![];
+                    if mk().max() != base.iter().cloned().max() || mk().min() != base.iter().cloned().min() {
+                        problems.push(format!("max()/min() = {:?}/{:?}, the ranks yielded have {:?}/{:?}", mk().max(), mk().min(), base.iter().max(), base.iter().min()));
+                    }
+                    if mk().rev().max() != base.iter().cloned().max() || mk().rev().min() != base.iter().cloned().min() || mk().by_ref().max() != base.iter().cloned().max() {
+                        problems.push("rev().max() / rev().min() / by_ref().max() differ from the maximum / minimum of the ranks yielded".into());
+                    }
+                    if mk().max_by_key(|r| u8::from(*r)) != base.iter().cloned().max_by_key(|r| u8::from(*r)) || mk().min_by_key(|r| u8::from(*r)) != base.iter().cloned().min_by_key(|r| u8::from(*r)) {
+                        problems.push("max_by_key / min_by_key over the codes differ".into());
+                    }
+                    if !base.windows(2).all(|w| w[0] < w[1]) {
+                        problems.push("the ranks are not yielded in increasing order".into());
+                    }
+                    if mk().map(|r| u8::from(r) as u32).sum::<u32>() != base.iter().map(|r| u8::from(*r) as u32).sum::<u32>() || mk().fold(0usize, |acc, _| acc + 1) != base.len() {
+                        problems.push("sum / fold over the iterator differ from the ranks yielded".into());
+                    }
+                    problems
+                });
+                if r.as_ref().map(|p| !p.is_empty()).unwrap_or(true) {
+                    v(&mut rep, "range-protocol", format!("RankRange::inclusive({},{}) through the order-based consumers", RANK_CHARS[a], RANK_CHARS[b]), json!({"a": a, "b": b}), json!("max, min, rev().max(), by_ref().max(), max_by_key, sum and fold agree with the ranks next() yields"), res(&r));
+                }
+            }
+        }
+        rep.sub("range-protocol", "the iterators of RankRange / SuitRange new and inclusive for all endpoint pairs: all front/back pull sequences of length <= 4 then drained either way, rev(), nth/nth_back for every k, count(), last(), len()/size_hint() before every pull agree with plain forward iteration; max, min, rev().max(), by_ref().max(), max_by_key, sum, fold of every inclusive rank range agree with the ranks next() yields", np, np, true, json!({}));
     }
 
     // 6. every route to the order: operators, Ord::cmp, partial_cmp, min/max/clamp, sort, BTreeSet, binary_search
@@ -557,6 +589,119 @@ pub fn run_c14(tier: &str) -> i32 {
             v(&mut rep, "handed-out-pairs", what.clone(), json!({"source": what}), json!("canonical pairs, each combo once"), json!(p));
         }
         rep.sub("handed-out-pairs", "every CardPair the library hands out: RankPair::into_iter for all 13 + 156 + 156 enum values (either rank order), the expansion of every single rank-pair token in either spelling, and the keys of a range holding one rank pair spelled both ways: first element orders first, equal to new(a,b), no combo twice", n, 13 + 312, true, json!({}));
+    }
+    // parse histories on one thread: every valid pair text, each preceded by three texts the parser refuses (from a
+    // rotating list of 300 distinct ones: junk characters, one card, the same card twice, three cards), and then all
+    // valid texts again in reverse: refusals before it must not change what a valid text parses to
+    {
+        let mut junk: Vec<String> = vec![];
+        for i in 0..100usize {
+            // 100 distinct two-character texts that are not cards ("g0" .. "p9"), before and after a real card
+            let not_a_card = format!("{}{}", (b'g' + (i / 10) as u8) as char, i % 10);
+            if i % 2 == 0 {
+                junk.push(format!("{}{}", not_a_card, card_text((i % 52) as u8)));
+            } else {
+                junk.push(format!("{}{}", card_text((i % 52) as u8), not_a_card));
+            }
+            junk.push(format!("{}{}", card_text((i % 52) as u8), card_text((i % 52) as u8)));
+            junk.push(format!("{}{}{}", card_text((i % 52) as u8), card_text(((i + 1) % 52) as u8), ["Z", "s", "9", "hh"][i % 4]));
+        }
+        let mut texts: Vec<(u8, u8)> = vec![];
+        for a in 0..52u8 {
+            for b in 0..52u8 {
+                if a != b {
+                    texts.push((a, b));
+                }
+            }
+        }
+        let all2 = all;
+        let outcome = std::thread::scope(|sc| {
+            sc.spawn(|| {
+                let mut bad: Vec<String> = vec![];
+                let mut j = 0usize;
+                let mut steps = 0u64;
+                let order: Vec<usize> = (0..texts.len()).chain((0..texts.len()).rev()).collect();
+                for &i in &order {
+                    let (a, b) = texts[i];
+                    for _ in 0..3 {
+                        let t = junk[j % junk.len()].clone();
+                        j += 1;
+                        steps += 1;
+                        let r = catch(move || t.parse::<CardPair>().is_ok());
+                        if r != Ok(false) {
+                            bad.push(format!("the refused text {:?} gives {:?}", junk[(j - 1) % junk.len()], r));
+                        }
+                    }
+                    let text = format!("{}{}", card_text(a), card_text(b));
+                    let want = CardPair::new(all2[a as usize], all2[b as usize]);
+                    steps += 1;
+                    let t2 = text.clone();
+                    let r = catch(move || t2.parse::<CardPair>().ok());
+                    if r != Ok(Some(want)) {
+                        bad.push(format!("{:?} after {} parses on this thread gives {:?}", text, steps, r.map(|x| x.map(|p| p.to_string()))));
+                    }
+                    if bad.len() >= 4 {
+                        break;
+                    }
+                }
+                (bad, steps)
+            })
+            .join()
+            .unwrap_or((vec!["the history thread died".into()], 0))
+        });
+        for b in outcome.0.iter().take(4) {
+            v(&mut rep, "parse-histories", format!("pair text history: {}", b), json!({"history": b}), json!("a valid pair text parses to its pair whatever was parsed (or refused) before on the thread"), json!(b));
+        }
+        rep.sub("parse-histories", "one thread: all 2,652 valid pair texts, each preceded by three refused texts from a rotating list of 300, then all of them again in reverse order: every valid text parses to its pair, every refused one stays refused", outcome.1, outcome.1, false, json!({}));
+    }
+    // a valid pair text after exactly k refusals on a FRESH thread, for every k in 0..=130 (a per-thread table of texts
+    // seen that overflows exactly while a valid text is being looked up): 4 first cards x all 51 second cards
+    {
+        let junk: Vec<String> = (0..131usize).map(|i| format!("{}{}As", (b'g' + (i / 10) as u8) as char, i % 10)).collect();
+        let firsts = [0u8, 21, 38, 51];
+        let mut jobs: Vec<(u8, u8)> = vec![];
+        for a in firsts {
+            for b in 0..52u8 {
+                if a != b {
+                    jobs.push((a, b));
+                }
+            }
+        }
+        let all2 = all;
+        let outs = vlib::par::par_map(jobs.len(), |j| {
+            let (a, b) = jobs[j];
+            let text = format!("{}{}", card_text(a), card_text(b));
+            let want = CardPair::new(all2[a as usize], all2[b as usize]);
+            let mut bad: Vec<String> = vec![];
+            for k in 0..=130usize {
+                let (t, jk) = (text.clone(), &junk);
+                let r = std::thread::scope(|sc| {
+                    sc.spawn(move || {
+                        catch(move || {
+                            for x in jk.iter().take(k) {
+                                let _ = x.parse::<CardPair>();
+                            }
+                            t.parse::<CardPair>().ok()
+                        })
+                    })
+                    .join()
+                    .unwrap_or(Err("thread died".into()))
+                });
+                if r != Ok(Some(want)) {
+                    bad.push(format!("{:?} after {} refused texts on a fresh thread gives {:?}", text, k, r.map(|x| x.map(|p| p.to_string()))));
+                    break;
+                }
+            }
+            bad
+        });
+        let mut n = 0u64;
+        for bad in outs {
+            n += 131;
+            for b in bad.iter().take(1) {
+                v(&mut rep, "parse-histories", format!("pair text history: {}", b), json!({"history": b}), json!("a valid pair text parses to its pair after any number of refused texts"), json!(b));
+            }
+        }
+        rep.sub("fresh-thread-histories", "for 4 first cards x all 51 second cards and every k in 0..=130: a fresh thread parses k distinct refused texts and then the valid text, which must parse to its pair", n, n, true, json!({}));
     }
     // the rank-pair expansion is an iterator: every way of consuming it hands out the same pairs
     {
